@@ -136,6 +136,9 @@ type Obs struct {
 	BatchesRA  int64    `json:"batches_ra"`
 	Ptrs       []Row    `json:"ptrs"`
 	Array      []Row    `json:"array"`
+	// Find into a slice that already holds records and has spare capacity (a reused destination)
+	Reused   []Row `json:"reused"`
+	ReusedRA int64 `json:"reused_ra"`
 	Single     *Row     `json:"single"`
 	SingleRA   int64    `json:"single_ra"`
 	Prim       *int64   `json:"prim"`
@@ -373,6 +376,13 @@ func run(db *gorm.DB, in Input) (o Obs) {
 		for _, p := range ptrs {
 			o.Ptrs = append(o.Ptrs, Row{p.ID, p.V})
 		}
+		reused := make([]Item, 3, 8)
+		for i := range reused {
+			reused[i] = Item{ID: -3 - int64(i), V: -3}
+		}
+		r0 := chain(db, in).Find(&reused)
+		fail("reused", r0.Error)
+		o.Reused, o.ReusedRA = toRows(reused), r0.RowsAffected
 		// an array that already holds records (a reused destination): every slot that is not
 		// zero afterwards is reported as a row
 		var arr [16]Item
@@ -919,7 +929,7 @@ func term(in Input, o Obs) string {
 		lib.ZList(o.PluckID), lib.ZList(o.PluckV), lib.Z(o.Count),
 		gORow(o.First), gORow(o.Last), gORow(o.Take),
 		lib.ListOf(o.Batches, gRows), lib.Z(o.BatchesRA),
-		gRows(o.Ptrs), gRows(o.Array), gORow(o.Single), lib.Z(o.SingleRA), gOZ(o.Prim), lib.Z(o.PrimRA),
+		gRows(o.Ptrs), gRows(o.Array), gRows(o.Reused), lib.Z(o.ReusedRA), gORow(o.Single), lib.Z(o.SingleRA), gOZ(o.Prim), lib.Z(o.PrimRA),
 		gRows(o.ScanMaps), lib.Z(o.ScanMapsRA), gRows(o.RowsMaps), gORow(o.FirstMap), gORow(o.LastMap), gORow(o.TakeMap),
 		lib.Z(int64(len(o.Errs))),
 		lib.Z(o.SelCount), lib.Z(o.SelFind), lib.Z(o.SelMaps),
@@ -1115,6 +1125,8 @@ func main() {
 		n := r.Range(0, 12)
 		if edge && r.Bool() {
 			n = lib.Pick(r, []int{0, 1, 2})
+		} else if r.Chance(1, 12) {
+			n = r.Range(17, 20) // more rows than the array destination has slots
 		}
 		in := Input{Tbl: genTable(r, n), Cond: genCond(r), Lops: genLops(r, edge)}
 		in.Ord = lib.Pick(r, []string{"none", "none", "id_asc", "id_desc", "v_asc"})
